@@ -94,13 +94,24 @@ def template(which: int, x: str, y: str) -> str:
         s = '? ' + x + '\n: ' + y
     elif which == 16:
         s = '- ' + x + '\n-' + y
-    else:
+    elif which == 17:
         s = 'a: ' + x + '\n' + y + ': b'
+    elif which == 18:
+        s = '| ' + x + y                     # header line running into the end of the input
+    elif which == 19:
+        s = '%YAML 1.1 ' + x + y
+    elif which == 20:
+        s = '%TAG !a! b ' + x + y
+    elif which == 21:
+        s = 'k: >- #' + x + y
+    else:
+        s = '%Z a #' + x + y
     return compose_only(s)
 
 
 TEMPLATES = ['%xy', '%YAML xy', '%TAG x y', '!<xy>', '!x!y', '!%x%y', '&xy', '*xy', '|x LF y', '>x LF y', '--- x LF ...y',
-             "'x'y", '"x\\y"', '[x,y', '{x:y', '? x LF : y', '- x LF -y', 'a: x LF y: b']
+             "'x'y", '"x\\y"', '[x,y', '{x:y', '? x LF : y', '- x LF -y', 'a: x LF y: b',
+             '| xy (to EOF)', '%YAML 1.1 xy', '%TAG !a! b xy', 'k: >- #xy', '%Z a #xy']
 
 
 def reader_bytes(b: bytes) -> str:
